@@ -23,7 +23,18 @@ pub static DEF: PropDef = PropDef {
 	runs,
 	gen,
 	eval,
-	shrink: crate::shrink::lib_shrink,
+	// The pipe contents are stage 1's output and must stay as they are: only schedules shrink.
+	shrink: |case| {
+		let sc = parse(case);
+		crate::shrink::sched_simplifications(&sc.calls[0].sched)
+			.into_iter()
+			.map(|s| {
+				let mut n = sc.clone();
+				n.calls[0].sched = s;
+				n.to_json()
+			})
+			.collect()
+	},
 	rule: "run = pipeline: 1..6 collection-rooted generated documents (incl. empty collections; first keys that are empty, numeric-looking, need quoting, non-ASCII, or start with a byte in 0x80-0xDF once encoded) rendered in JSON/MessagePack/YAML, translated by stage 1 to F in {JSON, MessagePack, YAML, TOML}; its recorded write boundaries are coalesced/split by the seeded pipe model into the read schedule of stage 2, which runs with detection as reader and as slice and is compared with the explicit -f F run; the detected format itself is read through the verif hook. Non-trivial: stage 2 received the pipe contents in >= 2 reads. Distinct = distinct (stage-1 output bytes, F, target, schedule).",
 	real: LIB_REAL,
 	stub: &["producer/consumer stubs as in the other library checks", "the pipe between the two stages (a schedule transformer over stage 1's recorded writes)"],
@@ -169,7 +180,12 @@ fn eval(case: &J) -> Eval {
 			let mut de = serde_json::Deserializer::from_str(text);
 			IgnoredAny::deserialize(&mut de).is_ok()
 		};
-		let yaml_collection = matches!(serde_yaml::from_str::<serde_yaml::Value>(text), Ok(serde_yaml::Value::Mapping(_) | serde_yaml::Value::Sequence(_)));
+		// "at the same time a YAML collection document": the first document of the text,
+		// read by serde_yaml as a YAML stream, is a mapping or a sequence.
+		let yaml_collection = {
+			use serde::Deserialize;
+			serde_yaml::Deserializer::from_str(text).next().is_some_and(|de| matches!(serde_yaml::Value::deserialize(de), Ok(serde_yaml::Value::Mapping(_) | serde_yaml::Value::Sequence(_))))
+		};
 		if json_first || yaml_collection || text.is_empty() {
 			ev.count("toml.carved_out", 1);
 			ev.key = key_of(&sc, 0);
